@@ -60,11 +60,12 @@ theorem dsize_c (e P L : Int) (hL : 0 ≤ L) (h : ¬ P ≥ L) (h' : ¬ P > e) :
   simp only [c0, if_false, h, h']
 
 /-- Negative `ell_max` means `ell_max := mp_max`. -/
-theorem dsize_default (e P L : Int) (hL : L < 0) (hP : 0 ≤ P) :
+theorem dsize_default (e P L : Int) (hL : L < 0) :
     WignerDsize e P L = WignerDsize e P P := by
   unfold WignerDsize
-  have c0 : ¬ (P < 0) := by omega
-  simp only [hL, if_true, c0, if_false]
+  by_cases c0 : P < 0
+  · simp only [hL, if_true, c0]
+  · simp only [hL, if_true, c0, if_false]
 
 /-! ### blocks -/
 
@@ -115,7 +116,7 @@ theorem dBlock_get (P ell mp m : Int) (hP : 0 ≤ P) (hl : 0 ≤ ell)
 def dOff (e P k : Int) : Int := if k > e then WignerDsize e P (k - 1) else 0
 
 /-- first block -/
-theorem dsize_base (e P : Int) (he : 0 ≤ e) (hP : 0 ≤ P) :
+theorem dsize_base (e P : Int) (he : 0 ≤ e) (_hP : 0 ≤ P) :
     WignerDsize e P e = (2 * min e P + 1) * (2 * e + 1) := by
   by_cases c : P ≥ e
   · have h := dsize3_a e P e he c
@@ -185,7 +186,7 @@ theorem dOff_step (e P k : Int) (he : 0 ≤ e) (hP : 0 ≤ P) (hk : e ≤ k) :
     simp only [c, if_false, zero_add]
     exact dsize_base k P he hP
 
-theorem dOff_end (e P L : Int) (h : e ≤ L + 1) (he : 0 ≤ e) (hL : 0 ≤ L) (hP : 0 ≤ P) :
+theorem dOff_end (e P L : Int) (h : e ≤ L + 1) (he : 0 ≤ e) (hL : 0 ≤ L) (_hP : 0 ≤ P) :
     dOff e P (L + 1) = WignerDsize e P L := by
   unfold dOff
   rw [show L + 1 - 1 = L by ring]
@@ -221,7 +222,7 @@ theorem dindex_default (ell mp m e P : Int) (hP : P < 0) :
   simp only [hP, if_true, min_self]
   by_cases c : ell < 0
   · simp only [c, if_true]
-  · simp only [c, if_false, min_self]
+  · simp only [c, if_false]
 
 theorem dindex_get (e P L ell mp m : Int) (he : 0 ≤ e) (hel : e ≤ ell) (hL : ell ≤ L) (hP : 0 ≤ P)
     (h1 : -(min ell P) ≤ mp) (h2 : mp ≤ min ell P) (h3 : -ell ≤ m) (h4 : m ≤ ell) :
